@@ -402,6 +402,9 @@ func (e *Env) binary(x *Binary) Val {
 func (e *Env) isNil(v Val) T {
 	switch v := v.(type) {
 	case PtrV:
+		if v.Kind == pkCell || v.Kind == pkElem || (v.Kind == pkHeap && len(v.Path) > 0) {
+			return False // a pointer to a local, to an element or into an object is never nil
+		}
 		return Eq(ptrRefLoose(v), IntC(0))
 	case SliceV:
 		return Eq(v.Base, IntC(0))
